@@ -1475,6 +1475,36 @@ class Interp:
         self.ctx.cover(lname + "/exit")
         self.exec_block(node.orelse, env)
 
+    def _for_range_symbolic_step(self, node, env, it, lc, lname):
+        """for x in range(start, stop, step) with a symbolic positive step: the invariant speaks about `_next`,
+        the value the loop variable takes next (no multiplication is introduced)."""
+        a = it.attrs
+        step = ops.as_int_term(a["step"])
+        stop = ops.as_int_term(a["stop"])
+        if self.ctx.branch(step <= 0, "range-step<=0"):
+            self.unsupported(node, "range with non-positive symbolic step")
+        env.assign("_next", a["start"])
+        self.check_invariants(lc, env, "entry", lname)
+        self.havoc_loop(node, env, lc)
+        nxt = z3.Int(self.ctx.fresh_name("_next"))
+        self.ctx.assume(nxt >= ops.as_int_term(a["start"]))
+        env.assign("_next", Sym(INT, nxt))
+        self.assume_invariants(lc, env)
+        if self.ctx.branch(nxt < stop, "for@%d" % node.lineno):
+            self.ctx.cover(lname + "/body")
+            self.assign_target(node.target, Sym(INT, nxt), env)
+            try:
+                self.exec_block(node.body, env)
+            except Brk:
+                return
+            except Cont:
+                pass
+            env.assign("_next", Sym(INT, nxt + step))
+            self.check_invariants(lc, env, "preserved", lname)
+            raise PathEnd()
+        self.ctx.cover(lname + "/exit")
+        self.exec_block(node.orelse, env)
+
     def check_decreases(self, lname, v0, v1, text):
         if isinstance(v0, tuple):
             # lexicographic
@@ -1505,6 +1535,8 @@ class Interp:
                     continue
             self.exec_block(node.orelse, env)
             return
+        if isinstance(it, Opaque) and it.tag == "range" and not isinstance(it.attrs["step"], int):
+            return self._for_range_symbolic_step(node, env, it, lc, lname)
         seq = self.pack.for_sequence(self, it, node)  # (length term, getter(i_term)->value)
         n, getter = seq
         env.assign("_i", 0)
